@@ -402,7 +402,7 @@ mutant('C04', 'c04-close-children-live-list', CONTEXT,
 mutant('C04', 'c04-volatile-before-children', CONTEXT,
        "        self._close_children()\n        self._close_volatile()",
        "        self._close_volatile()\n        self._close_children()",
-       'P _close_scope', 'volatile children closed before regular ones')
+       'P Scope.__aexit__', 'volatile children closed before regular ones')
 mutant('C04', 'c04-do-after-close', CONTEXT,
        "        if not self._interruptable:\n            # we have been given the payload with the expectation of managing it\n            # close it now since no-one else should expect to own it\n            try_close(payload)\n            raise ScopeClosed(self)\n",
        "",
